@@ -3,7 +3,7 @@
 import glob, json, os, subprocess, sys
 from concurrent.futures import ThreadPoolExecutor
 jobs = []
-for rnd, base in (("r1", "/root/seeds_in"), ("r2", "/root/seeds_in2"), ("r3", "/root/seeds_in3"), ("r4", "/root/seeds_in4"), ("r5", "/root/seeds_in5"), ("r6", "/root/seeds_in6"), ("r7", "/root/seeds_in7")):
+for rnd, base in (("r1", "/root/seeds_in"), ("r2", "/root/seeds_in2"), ("r3", "/root/seeds_in3"), ("r4", "/root/seeds_in4"), ("r5", "/root/seeds_in5"), ("r6", "/root/seeds_in6"), ("r7", "/root/seeds_in7"), ("r8", "/root/seeds_in8")):
     for d in sorted(glob.glob(base + "/C*/[ab]")):
         prop, x = d.split("/")[-2:]
         patch = os.path.join(d, "patch.rebased.diff") if os.path.exists(os.path.join(d, "patch.rebased.diff")) else os.path.join(d, "patch.diff")
